@@ -232,3 +232,46 @@ def thm_rt_referrals(c_ref: bytes, xs: seqstr, n: int, count: int, q: int) -> No
         lemma_strs_enc_nonempty(c_ref, xs, 0, n, 0, 4, count)
     if 0 <= q and q < n:
         lemma_strs_enc_nth(c_ref, xs, 0, n, 0, 4, q)
+
+
+# ---- the same for lists of octet strings (attribute values)
+def lemma_octs_enc_nth(s: bytes, xs: seqbytes, i: int, n: int, cls: int, num: int, q: int) -> None:
+    lemma_tlv_roundtrip(take(s, tlv_len(s)), cls, False, num, xs[i], drop(s, tlv_len(s)))
+    assert cat(take(s, tlv_len(s)), drop(s, tlv_len(s))) == s
+    assert rest_of(s) == drop(s, tlv_len(s))
+    if q > i:
+        lemma_octs_enc_nth(drop(s, tlv_len(s)), xs, i + 1, n, cls, num, q)
+        assert nth_rest(s, q - i) == nth_rest(rest_of(s), q - i - 1)
+    else:
+        assert nth_rest(s, 0) == s
+
+
+def lemma_octs_enc_end(s: bytes, xs: seqbytes, i: int, n: int, cls: int, num: int) -> None:
+    if i < n:
+        lemma_tlv_roundtrip(take(s, tlv_len(s)), cls, False, num, xs[i], drop(s, tlv_len(s)))
+        assert cat(take(s, tlv_len(s)), drop(s, tlv_len(s))) == s
+        assert rest_of(s) == drop(s, tlv_len(s))
+        lemma_octs_enc_end(drop(s, tlv_len(s)), xs, i + 1, n, cls, num)
+        assert nth_rest(s, n - i) == nth_rest(rest_of(s), n - i - 1)
+    else:
+        assert nth_rest(s, 0) == s
+
+
+def lemma_octs_enc_nonempty(s: bytes, xs: seqbytes, i: int, n: int, cls: int, num: int, q: int) -> None:
+    assert len(s) > 0
+    if q > i:
+        assert rest_of(s) == drop(s, tlv_len(s))
+        lemma_octs_enc_nonempty(drop(s, tlv_len(s)), xs, i + 1, n, cls, num, q)
+        assert nth_rest(s, q - i) == nth_rest(rest_of(s), q - i - 1)
+    else:
+        assert nth_rest(s, 0) == s
+
+
+def thm_rt_octs(c: bytes, xs: seqbytes, n: int, count: int, q: int) -> None:
+    """Encoder: c holds the n values xs[0:n] as OCTET STRINGs.  Decoder: it stopped after `count` elements.  Then count == n and the
+    q-th decoded value is xs[q]."""
+    lemma_octs_enc_end(c, xs, 0, n, 0, 4)
+    if count < n:
+        lemma_octs_enc_nonempty(c, xs, 0, n, 0, 4, count)
+    if 0 <= q and q < n:
+        lemma_octs_enc_nth(c, xs, 0, n, 0, 4, q)
